@@ -30,15 +30,36 @@ fn lcd_frame_pos(m: &dyn Machine) -> u64 {
     (base + off + dots as u64) % FRAME
 }
 
+thread_local! {
+    /// cycles the implementation charged for the last dispatch when that was not 5 (-1: nothing to report)
+    static DISPATCH_CHARGE: std::cell::Cell<i64> = std::cell::Cell::new(-1);
+}
+
 /// one step of the twin, composed by hand; returns machine cycles delivered
 fn twin_step(t: &mut dyn Machine, block: bool, jit: bool) -> Result<u64, String> {
     let r = std::panic::catch_unwind(std::panic::AssertUnwindSafe(|| {
         if t.run_state() != RUN {
             // one machine cycle passes while the CPU is suspended
             t.clock(4);
+            let ime_before = t.ime();
+            let before = t.regs().cycles;
             t.handle_interrupt();
+            if ime_before == IME_ON && t.ime() == IME_OFF {
+                let mut r = t.regs();
+                if r.cycles != before + 5 {
+                    DISPATCH_CHARGE.with(|c| c.set(r.cycles as i64 - before as i64));
+                    r.cycles = before + 5;
+                    t.set_regs(r);
+                }
+            }
             return 1u64;
         }
+        // machine cycles charged earlier but not yet delivered (the 5 of a dispatch): kept by the twin itself, so that it does not
+        // matter how an engine treats the counter it finds on entry
+        let mut r0 = t.regs();
+        let pending = r0.cycles as u64;
+        r0.cycles = 0;
+        t.set_regs(r0);
         let status = if block {
             let pc = t.regs().ip;
             if jit && pc < 0x8000 {
@@ -68,11 +89,24 @@ fn twin_step(t: &mut dyn Machine, block: bool, jit: bool) -> Result<u64, String>
             _ => {}
         }
         let mut regs = t.regs();
-        let cycles = regs.cycles as u64;
+        let cycles = pending + regs.cycles as u64;
         regs.cycles = 0;
         t.set_regs(regs);
-        t.clock(4 * cycles as usize);
+        // the twin's devices advance one machine cycle at a time: the replica under test must match however it batches
+        for _ in 0..cycles {
+            t.clock(4);
+        }
+        let ime_before = t.ime();
         t.handle_interrupt();
+        if ime_before == IME_ON && t.ime() == IME_OFF {
+            // a dispatch took place: it costs five machine cycles, delivered with the next step
+            let mut r = t.regs();
+            if r.cycles != 5 {
+                DISPATCH_CHARGE.with(|c| c.set(r.cycles as i64));
+                r.cycles = 5;
+                t.set_regs(r);
+            }
+        }
         cycles
     }));
     match r {
@@ -138,7 +172,29 @@ impl Scenario for TimeConservation {
         }
     }
 
-    fn generate(&self, rng: &mut Rng, _index: u64, thorough: bool, case: &mut Case) {
+    fn generate(&self, rng: &mut Rng, index: u64, thorough: bool, case: &mut Case) {
+        if index % 40 == 39 {
+            // a step of tens of thousands of machine cycles: the upper ROM half filled with one one-byte instruction, entered at
+            // its start with the timer running (catch-up batches beyond 65536 clocks)
+            case.set("cart_type", 0);
+            case.set("rom_code", 0);
+            case.set("ram_code", 3);
+            case.set("ramfill", 1 + rng.below(1 << 30) as i64);
+            case.set("no_div_writes", 1);
+            case.set("jit", rng.below(2) as i64);
+            case.set("mode", 1);
+            let op = rng.pick(&[0x00u8, 0x04, 0x34, 0x00]);
+            let n = rng.pick(&[0x3ffdusize, 0x3000, 0x2000]);
+            let mut code = vec![op; n];
+            code.extend([0xc3, 0x50, 0x01]);
+            case.blobs.insert(crate::cart::patch_key(0x8000 - code.len()), code.clone());
+            let start = 0x8000 - code.len();
+            // entry: timer on, HL in work RAM, jump into the giant block
+            case.blobs.insert(crate::cart::patch_key(0x150), vec![0x31, 0xf0, 0xdf, 0x21, 0x00, 0xc1, 0x3e, rng.pick(&[5u8, 6, 7, 4]), 0xe0, 0x07, 0x3e, 0x04, 0xe0, 0xff, 0xc3, start as u8, (start >> 8) as u8]);
+            case.push("s", &[rng.range(4, 12)]);
+            case.push("frame", &[]);
+            return;
+        }
         let _p = generate_program(rng, case, thorough);
         case.set("jit", rng.below(2) as i64);
         case.set("mode", rng.below(3) as i64);
@@ -266,6 +322,11 @@ impl Scenario for TimeConservation {
                             }
                             _ => {}
                         }
+                        let charged = DISPATCH_CHARGE.with(|c| c.replace(-1));
+                        if charged >= 0 {
+                            out.push(Violation::new("C09", format!("C09/dispatch-charge/{}", build), format!("op {} step {} (pc {:#06x}): an interrupt dispatch charged {} machine cycles instead of 5", opi, steps, pre.ip, charged)));
+                            break 'ops;
+                        }
                         let cycles = *rt.as_ref().unwrap();
                         if cycles < 1 {
                             out.push(Violation::new("C09", format!("C09/step-without-time/{}/{}", mode_name, build), format!("op {} step {} (pc {:#06x}, run state {}): the step consumed {} machine cycles", opi, steps, pre.ip, pre_state, cycles)));
@@ -273,6 +334,9 @@ impl Scenario for TimeConservation {
                         }
                         sum_cycles += cycles;
                         max_block = max_block.max(cycles);
+                        if cycles >= 16384 {
+                            ctx.cov.hit("probe.steps_of_65536_clocks_or_more");
+                        }
                         if pre_state != RUN {
                             suspended += 1;
                         }
@@ -326,11 +390,6 @@ impl Scenario for TimeConservation {
                         continue;
                     }
                     ctx.cov.hit("probe.run_frame_returned");
-                    let (mode_after, _, _) = a.lcd_pos();
-                    if mode_after == 1 {
-                        out.push(Violation::new("C09", "C09/run-frame-postcondition".to_string(), format!("op {}: run_frame returned while the LCD is still in mode 1", opi)));
-                        break 'ops;
-                    }
                     if no_div {
                         let dl = (lcd_frame_pos(a) + FRAME - l0) % FRAME;
                         let dt = (a.timer_phase() as u64 + 65536 - t0) % 65536;
